@@ -1321,7 +1321,7 @@ mod expression_parser {
                 body: Box::new(body),
               });
             } else {
-              let tuple_elements = parameters_or_tuple_elements_cover
+              let mut tuple_elements = parameters_or_tuple_elements_cover
                 .into_iter()
                 .map(|name| {
                   expr::E::LocalId(
@@ -1334,6 +1334,10 @@ mod expression_parser {
                   )
                 })
                 .collect_vec();
+              if tuple_elements.len() == 1 {
+                // `(a,)` is a parenthesized expression with a trailing comma, not a tuple of size 1.
+                return tuple_elements.pop().unwrap();
+              }
               let loc = peeked_loc.union(&right_parenthesis_loc);
               return expr::E::Tuple(
                 expr::ExpressionCommon {
@@ -1623,6 +1627,10 @@ mod expression_parser {
     }
     expressions.truncate(MAX_STRUCT_SIZE);
     let (end_loc, end_comments) = parser.assert_and_consume_operator(TokenOp::RightParenthesis);
+    if expressions.len() == 1 {
+      // `(e,)` is a parenthesized expression with a trailing comma, not a tuple of size 1.
+      return expressions.pop().unwrap();
+    }
     let loc = start_loc.union(&end_loc);
     debug_assert!(expressions.len() > 1);
     expr::E::Tuple(
